@@ -49,7 +49,7 @@ def _cex(mdl):
 
 
 def check_events(M, C, sizes, tails, candidates, base_case, pfx="anyL", domain=None, returned=None, full_box=None, extra_prem=None, tid=0, domains=None,
-                 returned_on_domain_only=False):
+                 returned_on_domain_only=False, row_axes=None):
     """verification conditions for the recorded run.
        candidates(idx, tail) -> list of (description, rhs Sym, [Affs that must be >= 0])  specification relations that may define idx
        base_case(idx, tail)  -> Sym or None   (elements the specification gives in closed form / by a callee's contract)
@@ -72,9 +72,29 @@ def check_events(M, C, sizes, tails, candidates, base_case, pfx="anyL", domain=N
         for d, D in enumerate(C.tables[tid]):
             st, mdl = G.check_valid(prem, D.z3(env) >= 1)
             M._rec("%s/table-extent-%d-is-positive[%r]" % (pfx, d, D), st, "z3-lia", G.LAST_SECS[0], detail=mdl or "", cex=_cex(mdl))
-    dom = domain or (lambda env_, *ix: z3.BoolVal(True))
-    doms = dict(domains or {})
-    doms.setdefault(tid, dom)
+    dom0 = domain or (lambda env_, *ix: z3.BoolVal(True))
+    doms0 = dict(domains or {})
+    doms0.setdefault(tid, dom0)
+    # row_axes: {table id: [(concrete axis, its length), ...]} - the concrete axes (rows of component arrays) the domain of that
+    # table depends on; such a domain takes rows=(r0, r1, ...).  An event that does not say which row it serves counts for all.
+    row_axes = dict(row_axes or {})
+
+    def rows_of(t, known):
+        """all assignments of the row axes of table t that agree with the known coordinates {axis: value}"""
+        axes = row_axes.get(t, [])
+        return [combo for combo in itertools.product(*[range(n) for _k, n in axes]) if all(known.get(k, v) == v for (k, _n), v in zip(axes, combo))]
+
+    def dom_at(t, env_, target, rows):
+        f = doms0.get(t, dom0)
+        return f(env_, *target, rows=rows) if row_axes.get(t) else f(env_, *target)
+
+    def dom_any(t, env_, target, known=None):
+        if not row_axes.get(t):
+            return dom_at(t, env_, target, None)
+        return z3.Or([dom_at(t, env_, target, rows) for rows in rows_of(t, known or {})])
+
+    dom = lambda env_, *target: dom_any(tid, env_, list(target))
+    doms = {t: (lambda env_, *target, _t=t: dom_any(_t, env_, list(target))) for t in doms0}
 
     for n, w in enumerate(writes):
         name = "%s/stmt%02d[%s]" % (pfx, n, ",".join(repr(e) for e in w["idx"]))
@@ -122,12 +142,22 @@ def check_events(M, C, sizes, tails, candidates, base_case, pfx="anyL", domain=N
                     senv[sidx] = S.expand(new)
         idx = tuple(pin(e) for e in w["idx"])
         tshape = tuple(max(t[d] for t in tails) + 1 for d in range(len(tails[0])))
-        if tuple(w["value"].shape[-len(tshape):]) != tshape:
+        vnd = w["value"].ndim
+        kept = w.get("kept")
+        if kept is None:
+            kept = {k: len(tshape) - k for k in range(len(tshape))}  # concrete axes last
+        tfix = w.get("tfix") or {}
+        if any(w["value"].shape[vnd - sl] != tshape[k] for k, sl in kept.items()) or set(kept) | set(tfix) != set(range(len(tshape))):
             M._rec(name + "/value-has-the-trailing-shape-of-the-table", "failed", "run", 0.0, cex={"env": {}},
-                   detail="trailing shape %s, the table's is %s (points / primitives / segments lost or duplicated)" % (w["value"].shape, tshape))
+                   detail="shape %s, the table's concrete axes are %s (points / primitives / segments / rows lost or duplicated)" % (w["value"].shape, tshape))
             continue
         for tail in tails:
-            got = w["value"][(0,) * (w["value"].ndim - len(tail)) + tail]
+            if any(tail[k] != v for k, v in tfix.items()):
+                continue  # this statement writes another row
+            vpos = [0] * vnd
+            for k, sl in kept.items():
+                vpos[vnd - sl] = tail[k]
+            got = w["value"][tuple(vpos)]
             vg = subst.substitute_all(S.expand(S.lift(got)), senv)
             base = base_case(idx, tail)
             if base is not None:
@@ -146,10 +176,11 @@ def check_events(M, C, sizes, tails, candidates, base_case, pfx="anyL", domain=N
                     st, mdl = G.check_valid(wprem, e.z3(env) >= 0)
                     M._rec(name + "/relation-applied-inside-the-table[%r>=0]" % e, st, "z3-lia", G.LAST_SECS[0], detail=mdl or "", cex=_cex(mdl))
 
-    def written_before(r, rprem, label):
+    def written_before(r, rprem, label, rrows=None):
         target = [e.z3(env) for e in r["idx"]]
         alts = []
-        rdom = doms.get(r.get("tid", tid), dom)
+        rt = r.get("tid", tid)
+        rdom = (lambda env_, *tg: dom_at(rt, env_, list(tg), rrows)) if (row_axes.get(rt) and rrows is not None) else doms.get(rt, dom)
         for w in [x for x in allwrites if x.get("tid", 0) == r.get("tid", tid)]:
             rl = {l[0]: l for l in r["loops"]}
             common = [l for l in w["loops"] if l[0] in rl]
@@ -165,8 +196,25 @@ def check_events(M, C, sizes, tails, candidates, base_case, pfx="anyL", domain=N
     # every element read (for a target the specification speaks about) was written earlier and lies in the domain
     for n, r in enumerate(reads):
         wtarget = [e.z3(env) for e in r["widx"]]
-        rprem = prem + [G._cons_z3(r["wcons"], env), dom(env, *wtarget)]
-        written_before(r, rprem, "%s/read%02d[%s]@stmt-seq%d/written-before" % (pfx, n, ",".join(repr(e) for e in r["idx"]), r["seq"]))
+        label = "%s/read%02d[%s]@stmt-seq%d/written-before" % (pfx, n, ",".join(repr(e) for e in r["idx"]), r["seq"])
+        rt = r.get("tid", tid)
+        if not row_axes.get(tid) and not row_axes.get(rt):
+            rprem = prem + [G._cons_z3(r["wcons"], env), dom(env, *wtarget)]
+            written_before(r, rprem, label)
+        else:
+            # per row of the target this read serves: target in its domain for that row => element read in ITS domain for the row
+            # it is read at (fixed by the index, or the row aligned with the target's, or - unknown - every row)
+            for wrows in (rows_of(tid, r.get("wrows") or {}) if row_axes.get(tid) else [None]):
+                rprem = prem + [G._cons_z3(r["wcons"], env), dom_at(tid, env, wtarget, wrows)]
+                known = dict(r.get("tfix") or {})
+                wknown = dict(r.get("wrows") or {})
+                if wrows is not None:
+                    wknown.update({k: v for (k, _n), v in zip(row_axes[tid], wrows)})
+                for k, tk in (r.get("rmap") or {}).items():
+                    if k not in known and tk in wknown:
+                        known[k] = wknown[tk]
+                for rrows in (rows_of(rt, known) if row_axes.get(rt) else [None]):
+                    written_before(r, rprem, label + ("@rows%s->%s" % (list(wrows) if wrows is not None else "", list(rrows) if rrows is not None else "")), rrows)
         for e, D in r["bounds"]:
             st, mdl = G.check_valid(prem + [G._cons_z3(r["wcons"], env)], z3.And(e.z3(env) >= 0, e.z3(env) < D.z3(env)))
             M._rec("%s/read%02d/index-in-range[%r]" % (pfx, n, e), st, "z3-lia", G.LAST_SECS[0], detail=mdl or "", cex=_cex(mdl))
@@ -181,7 +229,10 @@ def check_events(M, C, sizes, tails, candidates, base_case, pfx="anyL", domain=N
                 # the returned view is a box that also contains elements the specification does not speak about (the caller
                 # selects inside the domain): the claim is about the returned elements that lie in the domain
                 rp = rp + [doms.get(r.get("tid", tid), dom)(env, *[e.z3(env) for e in r["idx"]])]
-            written_before(r, rp, "%s/returned-region%d/every-%selement-written-and-specified" % (pfx, n, "specified " if returned_on_domain_only else ""))
+            rt = r.get("tid", tid)
+            for rrows in (rows_of(rt, r.get("tfix") or {}) if row_axes.get(rt) else [None]):
+                written_before(r, rp, "%s/returned-region%d%s/every-%selement-written-and-specified" % (pfx, n, ("@rows%s" % list(rrows)) if rrows is not None else "",
+                                                                                                       "specified " if returned_on_domain_only else ""), rrows)
     else:
         kk, jj, ii = z3.Int("ck"), z3.Int("cj"), z3.Int("ci")
         box = full_box(env, kk, jj, ii)
@@ -644,17 +695,19 @@ class TwoElecRecursionsAnyL:
     (zeta = a + b, eta = c + d, rho = zeta eta / (zeta + eta), P, Q the weighted centres; the selected components are the generic
     ones of the four shells).  Each table is claimed on the domain the next stage reads from, every element read was written
     before, every integer / component index is in range.  (4 alpha)^(l/2) and (2k-1)!! with symbolic l / k are opaque positive
-    atoms built identically on the specification side.  One generic component per shell stands for every row of the component
-    arrays: the rows are independent in the code (they only ever index), which the per-shape contract
-    contracts.coulomb:TwoElecKernel checks with all rows present."""
+    atoms built identically on the specification side.  With several component rows per shell (shape["R"]) the tables after a
+    selection carry one row axis per selected shell; they are claimed row by row (the domain of row (r_d, r_c) of the d_z table
+    is d_z + c_z <= d_z*[r_d] + c_z*[r_c]) and every read is attributed to the row of the target it serves."""
 
     function = "gbasis.integrals._two_elec_int._compute_two_elec_integrals (whole kernel; any angular momenta, any component)"
 
     def shapes(self, tier):
         # numbers of primitives K and of segments M per shell (concrete; the angular momenta and components are not)
-        out = [dict(K=[2, 1, 1, 1]), dict(K=[1, 1, 2, 1], M=[1, 2, 1, 1])]
+        # and R component rows per shell (each row three symbolic integers that add up to l)
+        out = [dict(K=[2, 1, 1, 1]), dict(K=[1, 1, 2, 1], M=[1, 2, 1, 1], R=[1, 2, 2, 1]), dict(K=[1, 1, 1, 1], M=[1, 1, 1, 1], R=[2, 1, 1, 3])]
         if tier == "thorough":
             out.append(dict(K=[1, 2, 1, 2], M=[2, 2, 2, 2]))
+            out.append(dict(K=[1, 1, 1, 1], M=[2, 1, 1, 2], R=[2, 2, 2, 2]))
         return out
 
     def native(self, shape, M):
@@ -713,14 +766,17 @@ class TwoElecRecursionsAnyL:
         L = ls[0] + ls[1] + ls[2] + ls[3]
         # one generic Cartesian component per shell: (acx, acy, acz) >= 0 with acx + acy + acz = l_a, ... (universally quantified,
         # like the angular momenta themselves)
-        cnames = [[s_ + "c" + x for x in "xyz"] for s_ in "abcd"]
+        # (shape["R"] rows per shell; a row is named acx, acy, acz - or acx1, ... for a second row)
+        R = shape.get("R", [1, 1, 1, 1])
+        cnames = [[[s_ + "c" + x + (str(r) if r else "") for x in "xyz"] for r in range(R[i])] for i, s_ in enumerate("abcd")]
         comps = []
-        for row in cnames:
-            arr = np.empty((1, 3), dtype=object)
-            for j, nm in enumerate(row):
-                arr[0, j] = G.Aff.var(nm)
+        for rows in cnames:
+            arr = np.empty((len(rows), 3), dtype=object)
+            for r, row in enumerate(rows):
+                for j, nm in enumerate(row):
+                    arr[r, j] = G.Aff.var(nm)
             comps.append(arr)
-        sizes = sizes + [nm for row in cnames for nm in row]
+        sizes = sizes + [nm for rows in cnames for row in rows for nm in row]
 
         def body(C_):
             seen_ = {}
@@ -749,8 +805,9 @@ class TwoElecRecursionsAnyL:
 
         def setup(C_):
             C_.assumed.append(("ge", L, G.Aff.of(1)))  # precondition: not all four shells are s shells
-            for i, row in enumerate(cnames):  # precondition: the components of a shell add up to its angular momentum
-                C_.assumed.append(("eq", G.Aff.var(row[0]) + G.Aff.var(row[1]) + G.Aff.var(row[2]), ls[i]))
+            for i, rows in enumerate(cnames):  # precondition: the components of a shell add up to its angular momentum
+                for row in rows:
+                    C_.assumed.append(("eq", G.Aff.var(row[0]) + G.Aff.var(row[1]) + G.Aff.var(row[2]), ls[i]))
             C_.allow_extent_exponents = True
 
         cases = G.run_cases(sizes, body, setup)
@@ -934,8 +991,9 @@ class TwoElecRecursionsAnyL:
 
         # ---- tables 3, 4, 5: selection of the d_x, d_y, c_x, c_y components, d_z; selection of d_z, c_z, then b_x, b_y; selection of
         # b_x, b_y, a_x, a_y, then b_z - for ANY component (acx, acy, acz), ... with the right sums
-        cv = [[G.Aff.var(nm) for nm in row] for row in cnames]  # a, b, c, d
+        cv = [[[G.Aff.var(nm) for nm in row] for row in rows] for rows in cnames]  # shell a, b, c, d -> row -> axis
         ca, cb, cc, cd = cv
+        Ra, Rb, Rc, Rd = [len(rows) for rows in cnames]
 
         def horiz(name, lead, pairs, centre_pair, label):
             """relations X[.. q+1 .., .. r ..] = X[.. q .., .. r+1 ..] + (centre difference) X[.. q .., .. r ..] for (q, r, axis) in pairs"""
@@ -955,25 +1013,28 @@ class TwoElecRecursionsAnyL:
                 return out_
             return cand
 
-        t6 = [(0, 0) + t for t in htails]  # (L_d, L_c, m_a, m_c, m_b, m_d): one component each
-        t8 = [(0, 0, 0, 0) + t for t in htails]  # (L_b, L_a, L_d, L_c, m_a, m_c, m_b, m_d)
+        t6 = [(rd, rc) + t for rd in range(Rd) for rc in range(Rc) for t in htails]  # (row of d, row of c, m_a, m_c, m_b, m_d)
+        t8 = [(rb, ra) + t for rb in range(Rb) for ra in range(Ra) for t in t6]  # (row of b, row of a, row of d, row of c, m_a, m_c, m_b, m_d)
+        # the tables after a selection are claimed, row by row, as far as that row's selected components need them
+        row_axes = {3: [(0, Rd), (1, Rc)], 5: [(0, Rb), (1, Ra)]}
 
         def base_d2(idx, tail):
             if idx[0].is_const() and idx[0].c == 0:
-                return C.named_atom("S2", cd[0], cd[1], cc[0], cc[1], idx[1], idx[2], idx[3], idx[4], tail[2:])
+                d_, c_ = cd[tail[0]], cc[tail[1]]
+                return C.named_atom("S2", d_[0], d_[1], c_[0], c_[1], idx[1], idx[2], idx[3], idx[4], tail[2:])
             return None
 
-        def dom_d2(env, dz, cz, ax, ay, az):
-            return z3.And(dz >= 0, cz >= 0, ax >= 0, ay >= 0, az >= 0, dz <= env("ld"), dz + cz <= env("dcz") + env("ccz"),
+        def dom_d2(env, dz, cz, ax, ay, az, rows):
+            return z3.And(dz >= 0, cz >= 0, ax >= 0, ay >= 0, az >= 0, dz <= env("ld"), dz + cz <= cd[rows[0]][2].z3(env) + cc[rows[1]][2].z3(env),
                           ax + ay + az <= env("la") + env("lb"))
 
         doms[3] = dom_d2
         check_events(M, C, sizes, t6, horiz("S3", 0, [(0, 1, 2)], (2, 3), "d"), base_d2, pfx=pfx + "/select-xy+horizontal-d_z", domain=dom_d2, tid=3, domains=doms,
-                     extra_prem=prem0, returned=[])
+                     extra_prem=prem0, returned=[], row_axes=row_axes)
 
         def base_b(idx, tail):
             if all(e.is_const() and e.c == 0 for e in idx[:2]):
-                return C.named_atom("S3", cd[2], cc[2], idx[2], idx[3], idx[4], tail)
+                return C.named_atom("S3", cd[tail[0]][2], cc[tail[1]][2], idx[2], idx[3], idx[4], tail)
             return None
 
         def dom_b(env, bx, by, ax, ay, az):
@@ -981,33 +1042,35 @@ class TwoElecRecursionsAnyL:
 
         doms[4] = dom_b
         check_events(M, C, sizes, t6, horiz("S4", 0, [(1, 3, 1), (0, 2, 0)], (0, 1), "b"), base_b, pfx=pfx + "/select-z+horizontal-b", domain=dom_b, tid=4, domains=doms,
-                     extra_prem=prem0, returned=[])
+                     extra_prem=prem0, returned=[], row_axes=row_axes)
 
         def base_b2(idx, tail):
             if idx[0].is_const() and idx[0].c == 0:
-                return C.named_atom("S4", cb[0], cb[1], ca[0], ca[1], idx[1], tail[2:])
+                b_, a_ = cb[tail[0]], ca[tail[1]]
+                return C.named_atom("S4", b_[0], b_[1], a_[0], a_[1], idx[1], tail[2:])
             return None
 
-        def dom_b2(env, bz, az):
-            return z3.And(bz >= 0, az >= 0, bz <= env("lb"), bz + az <= env("bcz") + env("acz"))
+        def dom_b2(env, bz, az, rows):
+            return z3.And(bz >= 0, az >= 0, bz <= env("lb"), bz + az <= cb[rows[0]][2].z3(env) + ca[rows[1]][2].z3(env))
 
         doms[5] = dom_b2
         out = seen["out"]
         check_events(M, C, sizes, t8, horiz("S5", 0, [(0, 1, 2)], (0, 1), "b"), base_b2, pfx=pfx + "/select-xy+horizontal-b_z", domain=dom_b2, tid=5, domains=doms,
-                     extra_prem=prem0, returned=[r for r in out.reads])
+                     extra_prem=prem0, returned=[r for r in out.reads], row_axes=row_axes)
 
         # ---- the returned block: [a | b | c | d] component (1 each), segments (m_a, m_b, m_c, m_d)
-        okshape = out.data.shape == (1, 1, 1, 1, Ms[0], Ms[1], Ms[2], Ms[3]) and not out.sym
+        okshape = out.data.shape == (Ra, Rb, Rc, Rd, Ms[0], Ms[1], Ms[2], Ms[3]) and not out.sym
         M.true(pfx + "/result/shape", okshape, "%s with symbolic axes %s" % (out.data.shape, sorted(out.sym)))
-        M.true(pfx + "/result/reads-the-last-table-only", len(out.reads) >= 1 and all(r.get("tid") == 5 for r in out.reads), "%d reads" % len(out.reads))
+        M.true(pfx + "/result/reads-the-last-table-only", len(out.reads) >= Ra * Rb and all(r.get("tid") == 5 for r in out.reads), "%d reads" % len(out.reads))
         if okshape:
-            nrm = S.lift(1)
-            for row in cv:
-                for e in row:
-                    nrm = nrm * _dfact_atom((e * 2 - 1).to_sym())
-            for ma, mc, mb, md in htails:
-                want = C.named_atom("S5", cb[2], ca[2], (0, 0, 0, 0, ma, mc, mb, md)) / M.SF.sqrt(nrm)
-                M.eq(pfx + "/result/value" + str([ma, mb, mc, md]), out.data[0, 0, 0, 0, ma, mb, mc, md], want)
+            for ra, rb, rc, rd in itertools.product(range(Ra), range(Rb), range(Rc), range(Rd)):
+                nrm = S.lift(1)
+                for row in (ca[ra], cb[rb], cc[rc], cd[rd]):
+                    for e in row:
+                        nrm = nrm * _dfact_atom((e * 2 - 1).to_sym())
+                for ma, mc, mb, md in htails:
+                    want = C.named_atom("S5", cb[rb][2], ca[ra][2], (rb, ra, rd, rc, ma, mc, mb, md)) / M.SF.sqrt(nrm)
+                    M.eq(pfx + "/result/value" + str([ra, rb, rc, rd, ma, mb, mc, md]), out.data[ra, rb, rc, rd, ma, mb, mc, md], want)
 
 
 def _dfact_atom(v):
